@@ -85,6 +85,74 @@ def classify_pos(text, line, col):
     return "ambiguous"   # inside / behind the line terminator
 
 
+def probe(s, text, m, line, col, dev, in_range_valueerror, max_objs=6, depth=1):
+    """One positional query + attribute walk of its results, judged against the exception contract.
+    Shared by the Hypothesis stage (run_case) and the atheris stage (vlib/fuzz_c01.py). Returns #objects walked."""
+    where = classify_pos(text, line, col)
+    try:
+        res = getattr(s, m)(line, col)
+    except ValueError as e:
+        if where == "in":
+            in_range_valueerror(e, m, line, col)
+        return 0
+    except Exception as e:
+        dev(api.bucket(e, m), "%s at %s" % (api.tb_tail(e), (line, col)))
+        return 0
+    if where == "out":
+        dev("no-valueerror-out-of-range:%s" % m, "returned normally at %s" % ((line, col),))
+        return 0
+    objs = [res] if m == "get_context" else list(res)
+    if len(objs) > max_objs:
+        step = len(objs) // max_objs
+        objs = objs[::step][:max_objs]
+    n = 0
+    for o in objs:
+        n += 1
+        for label, e in api.touch(o, depth=depth):
+            dev(api.bucket(e, m + "->" + label), "%s at %s" % (api.tb_tail(e), (line, col)))
+    return n
+
+
+def probe_global(s, m, search, dev, max_objs=4):
+    """The position-less queries (get_names, search, complete_search, get_syntax_errors), same contract."""
+    if m == "get_syntax_errors":
+        try:
+            for err in s.get_syntax_errors():
+                err.line, err.column, err.until_line, err.until_column, err.get_message(), repr(err)
+        except Exception as e:
+            dev(api.bucket(e, "get_syntax_errors"), api.tb_tail(e))
+        return 0
+    variants = {
+        "get_names": (("get_names", lambda: s.get_names()),
+                      ("get_names(all)", lambda: s.get_names(all_scopes=True, definitions=True, references=True))),
+        "search": (("search", lambda: list(s.search(search))),
+                   ("search(all_scopes)", lambda: list(s.search(search, all_scopes=True)))),
+        "complete_search": (("complete_search", lambda: list(s.complete_search(search))),),
+    }[m]
+    n = 0
+    for label, fn in variants:
+        try:
+            res = fn()
+        except Exception as e:
+            dev(api.bucket(e, label), api.tb_tail(e))
+            continue
+        for o in res[:max_objs]:
+            n += 1
+            for lab, e in api.touch(o, depth=0):
+                dev(api.bucket(e, label + "->" + lab), api.tb_tail(e))
+    return n
+
+
+def bom_aware(text, dev):
+    def in_range_valueerror(e, m, line, col):
+        # shape class of the one confirmed finding: a leading U+FEFF shifts the columns of line 1
+        if text.startswith("\ufeff") and line == 1:
+            dev("valueerror-in-range:leading-bom-line1", "%s at %s" % (api.tb_tail(e), (line, col)))
+        else:
+            dev(api.bucket(e, m), "%s at %s" % (api.tb_tail(e), (line, col)))
+    return in_range_valueerror
+
+
 def run_case(ctx, case):
     jedi = boot.jedi_boot()
     text = case["text"]
@@ -108,36 +176,11 @@ def run_case(ctx, case):
         except Exception as e:
             ctx.judge(api.bucket(e, "Script"), api.tb_tail(e), case)
             return
-        def in_range_valueerror(e, m, line, col):
-            # shape class of the one confirmed finding: a leading U+FEFF shifts the columns of line 1
-            if text.startswith("\ufeff") and line == 1:
-                dev("valueerror-in-range:leading-bom-line1", "%s at %s" % (api.tb_tail(e), (line, col)))
-            else:
-                dev(api.bucket(e, m), "%s at %s" % (api.tb_tail(e), (line, col)))
+        in_range_valueerror = bom_aware(text, dev)
 
         for line, col in case["positions"]:
-            where = classify_pos(text, line, col)
             for m in POS_METHODS:
-                try:
-                    res = getattr(s, m)(line, col)
-                except ValueError as e:
-                    if where == "in":
-                        in_range_valueerror(e, m, line, col)
-                    continue
-                except Exception as e:
-                    dev(api.bucket(e, m), "%s at %s" % (api.tb_tail(e), (line, col)))
-                    continue
-                if where == "out":
-                    dev("no-valueerror-out-of-range:%s" % m, "returned normally at %s" % ((line, col),))
-                    continue
-                objs = [res] if m == "get_context" else list(res)
-                if len(objs) > 6:
-                    step = len(objs) // 6
-                    objs = objs[::step][:6]
-                for o in objs:
-                    walked += 1
-                    for label, e in api.touch(o, depth=1):
-                        dev(api.bucket(e, m + "->" + label), "%s at %s" % (api.tb_tail(e), (line, col)))
+                walked += probe(s, text, m, line, col, dev, in_range_valueerror)
         # fuzzy completion at the first in-range positions
         for line, col in case["positions"][:2]:
             if classify_pos(text, line, col) == "in":
@@ -149,27 +192,8 @@ def run_case(ctx, case):
                     in_range_valueerror(e, "complete", line, col)
                 except Exception as e:
                     dev(api.bucket(e, "complete"), api.tb_tail(e))
-        for label, fn in (
-            ("get_names", lambda: s.get_names()),
-            ("get_names(all)", lambda: s.get_names(all_scopes=True, definitions=True, references=True)),
-            ("search", lambda: list(s.search(case["search"]))),
-            ("search(all_scopes)", lambda: list(s.search(case["search"], all_scopes=True))),
-            ("complete_search", lambda: list(s.complete_search(case["search"]))),
-        ):
-            try:
-                res = fn()
-            except Exception as e:
-                dev(api.bucket(e, label), api.tb_tail(e))
-                continue
-            for o in res[:4]:
-                walked += 1
-                for lab, e in api.touch(o, depth=0):
-                    dev(api.bucket(e, label + "->" + lab), api.tb_tail(e))
-        try:
-            for err in s.get_syntax_errors():
-                err.line, err.column, err.until_line, err.until_column, err.get_message(), repr(err)
-        except Exception as e:
-            dev(api.bucket(e, "get_syntax_errors"), api.tb_tail(e))
+        for label in ("get_names", "search", "complete_search", "get_syntax_errors"):
+            walked += probe_global(s, label, case["search"], dev)
 
     for sig, detail in devs:
         ctx.judge(sig, detail, case)
@@ -194,7 +218,71 @@ def _strictly_inside_token(text, line, col):
     return 0 < col < len(s) and re.match(r"\w", s[col - 1]) is not None and re.match(r"\w", s[col]) is not None
 
 
+# Coverage-guided stage (atheris / libFuzzer, vlib/fuzz_c01.py): which shards run it, from which starting corpus
+FUZZ_SHARDS = {"quick": {14: "seeds", 15: "empty"},
+               "thorough": {10: "seeds", 11: "seeds", 12: "seeds", 13: "seeds", 14: "empty", 15: "empty"}}
+FUZZ_RUNS = {"quick": 20000, "thorough": 400000}
+
+
+def fuzz_shard(ctx, mode):
+    """Run one libFuzzer campaign in a child process (atheris.Fuzz() never returns) and fold its counters and its
+    finding files into this shard's result. New signatures become violations; the runner confirms each of them alone
+    in a fresh process through the ordinary replay path (run_case) before reporting."""
+    import os, sys, json, subprocess
+    from pathlib import Path
+    deps = boot.VERIF / ".deps"
+    if not (deps / "atheris").exists():
+        ctx.cls("fuzz:skipped-atheris-not-installed")
+        return core.drive(ctx, cases(), lambda c: run_case(ctx, c), EXAMPLES[ctx.tier])
+    out = boot.fresh_dir("fuzz")
+    secs = int(ctx.budget * 0.8)
+    env = dict(os.environ)
+    env.pop("PYTHONPATH", None)
+    cmd = [boot.PY, "-m", "vlib.fuzz_c01", str(out), mode, "-runs=%d" % FUZZ_RUNS[ctx.tier],
+           "-seed=%d" % (ctx.hyp_seed() % (2 ** 31 - 1) + 1), "-max_total_time=%d" % secs]
+    log = open(out / "fuzz.log", "wb")
+    try:
+        p = subprocess.run(cmd, cwd=str(boot.VERIF), env=env, stdout=log, stderr=subprocess.STDOUT,
+                           timeout=secs + 240)
+        rc = p.returncode
+    except subprocess.TimeoutExpired:
+        rc = "timeout"
+    log.close()
+    tail = (out / "fuzz.log").read_bytes()[-6000:].decode("utf8", "replace")
+    st = out / "stats.json"
+    if not st.exists():
+        ctx.harness_errors.append("fuzz stage produced no stats (rc=%s)\n%s" % (rc, tail[-2500:]))
+        return
+    stats = json.loads(st.read_text())
+    if rc not in (0, "timeout") and not list(out.glob("finding-*.json")):
+        # libFuzzer itself died (it must not: the target swallows and records every exception)
+        ctx.harness_errors.append("fuzz stage exited with rc=%s\n%s" % (rc, tail[-2500:]))
+    ctx.count(stats["judged"])
+    for k, v in stats["classes"].items():
+        ctx.classes[k] += v
+    ctx.classes["fuzz:campaigns:" + mode] += 1
+    for k, v in stats["known_hits"].items():
+        ctx.known_hits[k] += v
+    for k, v in stats["discarded"].items():
+        ctx.discarded["fuzz:" + k] += v
+    ctx.inconclusive += stats["inconclusive"]
+    for i in range(stats["nontrivial"]):
+        ctx.nontrivial.add("fuzz-%d-%d" % (ctx.shard, i))     # distinct inputs (hash of the bytes) counted by the target
+    for sm in stats["samples"][:1]:
+        ctx.sample(sm)
+    m = re.findall(r"cov: (\d+) ft: (\d+) corp: (\d+)", tail)
+    if m:
+        ctx.extra["fuzz_corpus_units_" + mode] = int(m[-1][2])
+        ctx.extra["fuzz_features_" + mode] = int(m[-1][1])
+    for f in sorted(out.glob("finding-*.json")):
+        d = json.loads(f.read_text())
+        ctx.violations.append({"sig": d["sig"], "detail": d["detail"], "case": d["case"]})
+
+
 def shard(ctx):
+    mode = FUZZ_SHARDS[ctx.tier].get(ctx.shard) if ctx.nshards == 16 else None
+    if mode:
+        return fuzz_shard(ctx, mode)
     core.drive(ctx, cases(), lambda c: run_case(ctx, c), EXAMPLES[ctx.tier])
 
 
